@@ -147,8 +147,17 @@ func (h *handler) OnOpen(c gnet.Conn) (out []byte, action gnet.Action) {
 	}
 	h.script(ci, "open")
 	action = h.pickAction(ci, "open")
-	if h.rnd.Chance(h.cfg.pOpenReply) {
-		out = h.payload(h.rnd.Pick([]int{1, 5, 100, 3000}))
+	if h.cfg.scenario == "onopen-big-reply" {
+		// a reply far larger than the socket buffer and nothing written before it: conn.open's own
+		// write loop meets a short write and then EAGAIN
+		out = make([]byte, 400000)
+		for i := range out {
+			out[i] = byte(i*7 + i/251)
+		}
+		ci.accepted = append(ci.accepted, out...)
+		h.op(ci, tr.L("hret", actName(action), tr.X(out)))
+	} else if h.rnd.Chance(h.cfg.pOpenReply) {
+		out = h.payload(h.rnd.Pick([]int{1, 5, 100, 3000, 3000, 200000}))
 		ci.accepted = append(ci.accepted, out...)
 		h.op(ci, tr.L("hret", actName(action), tr.X(out)))
 	} else {
@@ -890,7 +899,7 @@ func (h *handler) scenarioScript(ci *connInfo, cb string) {
 			h.doCall(ci, "next", -1, nil, false)
 			h.doCall(ci, "write", 0, big(10), false) // the first write of the case fails: EPIPE injected
 		}
-	case "accept-fatal":
+	case "accept-fatal", "onopen-big-reply":
 		if cb == "traffic" {
 			h.doCall(ci, "next", -1, nil, false)
 		}
